@@ -6,16 +6,22 @@
   hypothesis about the finitely many values involved (collision-freedom of `H` on two MAC inputs, the KDF output
   differing on bytes 16..32, address derivation separating two scalars).
 
+  The model mirrors /repo at or after a73be14 (DecryptKey compares the decrypted key with the file's "address") and e55659c
+  (KDF parameters and IV validated instead of panicking).
+
   Clause map
     "recovered with that passphrase as the identical key and address"      roundtrip, roundtrip_keeps_leading_zeros
     "with any other passphrase unlocking fails with an error"              wrong_pass_rejected, wrong_pass_never_unlocks
     "after modification of ciphertext, MAC, salt, KDF parameters ..."      tamper_ct_mac_salt_params_rejected,
                                                                             tamper_ct_rejected, tamper_mac_rejected
-    "... or IV ... never a different key / account with another address"   tamper_never_yields_other_key (KeyStore.GetKey level,
-                                                                            any tampering), getKey_rejects_iv_tamper;
-                                                                            FALSE for bare DecryptKey: decryptKey_iv_tamper_witness,
-                                                                            decryptKey_iv_tamper_yields_other_key
-    "fails WITH AN ERROR" (not a crash)                                    decrypt_total_partial + decryptKey_kdf_panic_witness
+    "... or IV ... never a different key / account with another address"   tamper_never_yields_other_key (KeyStore.GetKey level),
+                                                                            decryptKey_tamper_never_yields_other_key (bare DecryptKey, file
+                                                                            carries its address), import_never_yields_other_account
+                                                                            (KeyStore.Import), decryptKey_rejects_key_of_other_address;
+                                                                            residual (file WITHOUT an address field, not written by this
+                                                                            keystore): decryptKey_no_address_iv_tamper_residual(+_witness)
+    "fails WITH AN ERROR" (not a crash)                                    decrypt_total, decrypt_panic_only_from_kdf,
+                                                                            degenerate_kdfparams_are_errors
 -/
 import Aqv.Lemmas.Keystore
 namespace Aqv.Props.C20
@@ -24,10 +30,12 @@ open Aqv Aqv.Keystore
 /-! ## 1. Round trip -/
 
 /-- For every private scalar `d` (in particular small ones, whose 32-byte encoding starts with zero bytes), every passphrase,
-    salt, IV and scrypt parameters: if the KDF delivers a key (32 bytes or more), `EncryptKey` produces a file that
+    salt, IV and scrypt parameters (p positive), the key's Address being the one derived from `d` (newKeyFromECDSA):
+    if the KDF delivers a key (32 bytes or more), `EncryptKey` produces a file that
     `DecryptKey` opens, under the same passphrase, to exactly `d` with the address derived from `d`; and
     `KeyStore`-level `GetKey` for that address accepts it. -/
-theorem roundtrip (P : Prims) (d : Nat) (hd : d < secpN) (addr id auth salt iv : Bytes) (n p : Int)
+theorem roundtrip (P : Prims) (d : Nat) (hd : d < secpN) (addr id auth salt iv : Bytes) (n p : Int) (hp0 : 0 < p)
+    (haddr : addr = P.addrOf d)
     (buf : Bytes) (len : Nat) (hk : P.kdf (.scrypt auth salt n scryptR p scryptDKLen) = .ok buf len)
     (hcap : 32 ≤ buf.length) (hiv : iv.length = 16) :
     ∃ f, encryptKey P d addr id auth salt iv n p = .ok f ∧
@@ -44,7 +52,7 @@ theorem roundtrip (P : Prims) (d : Nat) (hd : d < secpN) (addr id auth salt iv :
     have hkdf := getKDFKey_scryptParams P
       { cipher := ascii "aes-128-ctr", ciphertext := hexEncode (xorStream (P.ks (encKey buf) iv) 0 (paddedBigBytes d 32)),
         iv := hexEncode iv, kdf := ascii "scrypt", kdfparams := scryptParams n p salt,
-        mac := hexEncode (P.H (macKey buf ++ xorStream (P.ks (encKey buf) iv) 0 (paddedBigBytes d 32))) } auth salt n p rfl rfl
+        mac := hexEncode (P.H (macKey buf ++ xorStream (P.ks (encKey buf) iv) 0 (paddedBigBytes d 32))) } auth salt n p hp0 rfl rfl
     rw [hk] at hkdf
     have hcm := checkMac_of (P := P) (auth := auth) (hexDecode_hexEncode _) (hexDecode_hexEncode iv) (hexDecode_hexEncode _)
       hkdf hcap
@@ -59,10 +67,20 @@ theorem roundtrip (P : Prims) (d : Nat) (hd : d < secpN) (addr id auth salt iv :
     exact ⟨_, rfl⟩
   obtain ⟨f, hf⟩ := henc
   have h1 := hpt f hf
+  have hfa : f.address = hexEncode addr := by
+    unfold encryptKey at hf
+    rw [hk] at hf
+    simp only [if_neg (show ¬ buf.length < 32 by omega), hiv, ne_eq, not_true_eq_false, if_false] at hf
+    injection hf with hf
+    subst hf
+    rfl
+  have hchk : addrCheck P f (scalarOfBytes (paddedBigBytes d 32)) := by
+    right
+    rw [hfa, fileAddr_hexEncode, scalarOfBytes_padded d hd, haddr]
   refine ⟨f, hf, h1, ?_, ?_⟩
-  · rw [decryptKey_of_bytes h1, scalarOfBytes_padded d hd]
+  · rw [decryptKey_of_bytes h1 hchk, scalarOfBytes_padded d hd]
   · unfold getKey
-    rw [decryptKey_of_bytes h1, scalarOfBytes_padded d hd]
+    rw [decryptKey_of_bytes h1 hchk, scalarOfBytes_padded d hd]
     simp
 
 /-- The 32-byte encoding keeps leading zero bytes, and reading it back gives the same scalar (the "31-byte key" slip
@@ -86,7 +104,7 @@ theorem wrong_pass_rejected (P : Prims) (f : KeyFile) (pw pw' : Bytes) (k : Key)
     (hcr : ∀ ct, hexDecode f.crypto.ciphertext = some ct →
       P.H (macKey buf' ++ ct) = P.H (macKey buf ++ ct) → macKey buf' ++ ct = macKey buf ++ ct) :
     decryptKey P f pw' = .err .decrypt := by
-  obtain ⟨pt, hpt, _⟩ := decryptKey_ok hok
+  obtain ⟨pt, hpt, _, _⟩ := decryptKey_ok hok
   obtain ⟨hj, b0, iv, ct, hcm, hivl, hcase⟩ := decryptBytes_ok hpt
   obtain ⟨mac, l0, hmac, hiv, hct, hk0, hcap, hH⟩ := checkMac_ok hcm
   rw [hk] at hk0
@@ -116,10 +134,10 @@ theorem wrong_pass_never_unlocks (P : Prims) (f : KeyFile) (pw pw' : Bytes) (k :
       P.H (macKey buf' ++ ct) = P.H (macKey buf ++ ct) → macKey buf' ++ ct = macKey buf ++ ct) :
     ∀ k', decryptKey P f pw' ≠ .ok k' := by
   intro k' hok'
-  obtain ⟨pt, hpt, _⟩ := decryptKey_ok hok
+  obtain ⟨pt, hpt, _, _⟩ := decryptKey_ok hok
   obtain ⟨_, b0, iv, ct, hcm, _, _⟩ := decryptBytes_ok hpt
   obtain ⟨mac, l0, _, _, hct, hk0, _, _⟩ := checkMac_ok hcm
-  obtain ⟨pt', hpt', _⟩ := decryptKey_ok hok'
+  obtain ⟨pt', hpt', _, _⟩ := decryptKey_ok hok'
   obtain ⟨_, b1, iv', ct', hcm', _, _⟩ := decryptBytes_ok hpt'
   obtain ⟨mac', l1, _, _, _, hk1, hcap1, _⟩ := checkMac_ok hcm'
   have := wrong_pass_rejected P f pw pw' k hok b0 b1 l0 l1 hk0 hk1 hcap1 (hdiff _ _ _ _ hk0 hk1)
@@ -149,10 +167,10 @@ theorem tamper_ct_mac_salt_params_rejected (P : Prims) (f f' : KeyFile) (pw : By
     (hbind : ∀ buf buf' len len', getKDFKey P f.crypto pw = .ok (buf, len) → getKDFKey P f'.crypto pw = .ok (buf', len') →
       macKey buf' = macKey buf → encKey buf' = encKey buf) :
     k' = k := by
-  obtain ⟨pt, hpt, hkk⟩ := decryptKey_ok hok
+  obtain ⟨pt, hpt, hkk, _⟩ := decryptKey_ok hok
   obtain ⟨_, b0, iv, ct, hcm, _, hcase⟩ := decryptBytes_ok hpt
   obtain ⟨mac, l0, hmac, hiv0, hct, hk0, hcap0, hH⟩ := checkMac_ok hcm
-  obtain ⟨pt', hpt', hkk'⟩ := decryptKey_ok hok'
+  obtain ⟨pt', hpt', hkk', _⟩ := decryptKey_ok hok'
   obtain ⟨_, b1, iv', ct', hcm', _, hcase'⟩ := decryptBytes_ok hpt'
   obtain ⟨mac', l1, hmac', hiv1, hct', hk1, hcap1, hH'⟩ := checkMac_ok hcm'
   have hivEq : iv' = iv := by
@@ -194,10 +212,10 @@ theorem tamper_ct_rejected (P : Prims) (f : KeyFile) (pw : Bytes) (k : Key) (new
       P.H (macKey buf ++ ct') = P.H (macKey buf ++ ct) → macKey buf ++ ct' = macKey buf ++ ct) :
     ∀ k', decryptKey P { f with crypto := { f.crypto with ciphertext := newCt } } pw ≠ .ok k' := by
   intro k' hok'
-  obtain ⟨pt, hpt, _⟩ := decryptKey_ok hok
+  obtain ⟨pt, hpt, _, _⟩ := decryptKey_ok hok
   obtain ⟨_, b0, iv, ct, hcm, _, _⟩ := decryptBytes_ok hpt
   obtain ⟨mac, l0, hmac, _, hct, hk0, hcap0, hH⟩ := checkMac_ok hcm
-  obtain ⟨pt', hpt', _⟩ := decryptKey_ok hok'
+  obtain ⟨pt', hpt', _, _⟩ := decryptKey_ok hok'
   obtain ⟨_, b1, iv', ct', hcm', _, _⟩ := decryptBytes_ok hpt'
   obtain ⟨mac', l1, hmac', _, hct', hk1, _, hH'⟩ := checkMac_ok hcm'
   -- the KDF sees the same parameters
@@ -221,10 +239,10 @@ theorem tamper_mac_rejected (P : Prims) (f : KeyFile) (pw : Bytes) (k : Key) (ne
     (hdiff : hexDecode newMac ≠ hexDecode f.crypto.mac) :
     ∀ k', decryptKey P { f with crypto := { f.crypto with mac := newMac } } pw ≠ .ok k' := by
   intro k' hok'
-  obtain ⟨pt, hpt, _⟩ := decryptKey_ok hok
+  obtain ⟨pt, hpt, _, _⟩ := decryptKey_ok hok
   obtain ⟨_, b0, iv, ct, hcm, _, _⟩ := decryptBytes_ok hpt
   obtain ⟨mac, l0, hmac, _, hct, hk0, _, hH⟩ := checkMac_ok hcm
-  obtain ⟨pt', hpt', _⟩ := decryptKey_ok hok'
+  obtain ⟨pt', hpt', _, _⟩ := decryptKey_ok hok'
   obtain ⟨_, b1, iv', ct', hcm', _, _⟩ := decryptBytes_ok hpt'
   obtain ⟨mac', l1, hmac', _, hct', hk1, _, hH'⟩ := checkMac_ok hcm'
   have hkdfEq : getKDFKey P { f.crypto with mac := newMac } pw = getKDFKey P f.crypto pw := rfl
@@ -259,7 +277,7 @@ theorem tamper_never_yields_other_key (P : Prims) (a : Bytes) (f f' : KeyFile) (
       · rename_i hne
         injection h with h
         subst h
-        obtain ⟨pt, _, hk⟩ := decryptKey_ok hk0
+        obtain ⟨pt, _, hk, _⟩ := decryptKey_ok hk0
         refine ⟨by simpa using hne, ?_⟩
         rw [hk]
     · rename_i hno
@@ -294,16 +312,78 @@ theorem getKey_ok_iff (P : Prims) (a : Bytes) (f : KeyFile) (pw : Bytes) (k : Ke
     rw [h]
     simp [ha]
 
-/-! ## 5. The IV is not covered by the MAC -/
+/-! ## 5. Bare DecryptKey and KeyStore.Import: the file's own address authenticates what the MAC does not cover -/
 
-/-- General form of the defect (v3 files): if a file opens, replacing the IV by ANY other 16-byte value for which the
-    keystream differs somewhere within the ciphertext length makes bare `DecryptKey` succeed with DIFFERENT key bytes. -/
-theorem decryptKey_iv_tamper_yields_other_key (P : Prims) (f : KeyFile) (pw pt : Bytes)
-    (hok : decryptBytes P f pw = .ok pt) (hv3 : isV1 f = false)
+/-- What a73be14 added: whenever `DecryptKey` succeeds on a file that names an address, the returned key HAS that address. -/
+theorem decryptKey_ok_matches_file_address (P : Prims) (f : KeyFile) (pw : Bytes) (k : Key)
+    (hok : decryptKey P f pw = .ok k) (ha : f.address ≠ []) :
+    fileAddr f.address = some k.addr ∧ k.addr = P.addrOf k.d := by
+  obtain ⟨pt, _, hk, hc⟩ := decryptKey_ok hok
+  rcases hc with hc | hc
+  · exact absurd hc ha
+  · rw [hk]; exact ⟨hc, rfl⟩
+
+/-- Bare `DecryptKey`, a key file that carries its address (every file written by EncryptKey / this keystore does): after ANY
+    modification that leaves the address field alone — ciphertext, MAC, salt, KDF parameters, IV, cipher, version, several at
+    once, under any passphrase — a successful result has the ORIGINAL address, and (address derivation separating the two
+    scalars) is the ORIGINAL key.  No assumption on KDF, MAC or cipher. -/
+theorem decryptKey_tamper_never_yields_other_key (P : Prims) (f f' : KeyFile) (pw pw' : Bytes) (k k' : Key)
+    (hok : decryptKey P f pw = .ok k) (hok' : decryptKey P f' pw' = .ok k')
+    (ha : f.address ≠ []) (hsame : f'.address = f.address) :
+    k'.addr = k.addr ∧ ((P.addrOf k'.d = P.addrOf k.d → k'.d = k.d) → k' = k) := by
+  obtain ⟨h1, h2⟩ := decryptKey_ok_matches_file_address P f pw k hok ha
+  obtain ⟨h1', h2'⟩ := decryptKey_ok_matches_file_address P f' pw' k' hok' (by rw [hsame]; exact ha)
+  rw [hsame, h1] at h1'
+  injection h1' with h1'
+  refine ⟨h1'.symm, ?_⟩
+  intro hinj
+  have hd : k'.d = k.d := hinj (by rw [← h2', ← h2, h1'])
+  cases k; cases k'
+  simp only at hd h1'
+  subst hd; subst h1'
+  rfl
+
+/-- The same at `KeyStore.Import` level: the account Import stores for a tampered JSON (address field untouched) has the
+    address of the original key — "never an account with a different address". -/
+theorem import_never_yields_other_account (P : Prims) (f f' : KeyFile) (pw pw' : Bytes) (a a' : Bytes)
+    (hok : importAccount P f pw = .ok a) (hok' : importAccount P f' pw' = .ok a')
+    (ha : f.address ≠ []) (hsame : f'.address = f.address) : a' = a := by
+  have inv : ∀ (g : KeyFile) (q x : Bytes), importAccount P g q = .ok x → ∃ k, decryptKey P g q = .ok k ∧ k.addr = x := by
+    intro g q x h
+    unfold importAccount at h
+    split at h
+    · rename_i k hk
+      injection h with h
+      exact ⟨k, hk, h⟩
+    · cases h
+    · cases h
+  obtain ⟨k, hk, e⟩ := inv f pw a hok
+  obtain ⟨k', hk', e'⟩ := inv f' pw' a' hok'
+  rw [← e, ← e']
+  exact (decryptKey_tamper_never_yields_other_key P f f' pw pw' k k' hk hk' ha hsame).1
+
+/-- How an altered IV (or anything else that makes the plaintext come out different) ends: if the bytes decrypt to a scalar
+    whose address is not the one the file names, `DecryptKey` returns the "key file corrupted" error. -/
+theorem decryptKey_rejects_key_of_other_address (P : Prims) (f : KeyFile) (pw pt : Bytes)
+    (hpt : decryptBytes P f pw = .ok pt) (ha : f.address ≠ [])
+    (hother : fileAddr f.address ≠ some (P.addrOf (scalarOfBytes pt))) :
+    decryptKey P f pw = .err .corrupted ∧ importAccount P f pw = .err .corrupted := by
+  have h := decryptKey_corrupted hpt ha hother
+  exact ⟨h, by unfold importAccount; rw [h]⟩
+
+/-- RESIDUAL (not reachable for files this keystore wrote, which always carry "address"; reachable for key files of other
+    tools that omit it): the IV is outside the MAC, so for a v3 file WITHOUT an address field, replacing the IV by any other
+    16-byte value whose keystream differs within the ciphertext length makes bare `DecryptKey` succeed with different key
+    bytes — it has nothing to compare against.  `KeyStore.GetKey` still compares with the account's address
+    (`tamper_never_yields_other_key`, `getKey_rejects_iv_tamper`). -/
+theorem decryptKey_no_address_iv_tamper_residual (P : Prims) (f : KeyFile) (pw pt : Bytes)
+    (hok : decryptBytes P f pw = .ok pt) (hv3 : isV1 f = false) (hna : f.address = [])
     (iv iv' : Bytes) (hiv : hexDecode f.crypto.iv = some iv) (hlen : iv'.length = 16)
     (buf : Bytes) (len : Nat) (hk : getKDFKey P f.crypto pw = .ok (buf, len))
     (i : Nat) (hi : i < pt.length) (hks : P.ks (encKey buf) iv' i ≠ P.ks (encKey buf) iv i) :
-    ∃ pt', decryptBytes P { f with crypto := { f.crypto with iv := hexEncode iv' } } pw = .ok pt' ∧ pt' ≠ pt := by
+    ∃ pt', pt' ≠ pt ∧
+      decryptKey P { f with crypto := { f.crypto with iv := hexEncode iv' } } pw =
+        .ok ⟨scalarOfBytes pt', P.addrOf (scalarOfBytes pt')⟩ := by
   obtain ⟨hj, b0, iv0, ct, hcm, hivl, hcase⟩ := decryptBytes_ok hok
   obtain ⟨mac, l0, hmac, hiv0, hct, hk0, hcap0, hH⟩ := checkMac_ok hcm
   rw [hiv] at hiv0
@@ -315,14 +395,15 @@ theorem decryptKey_iv_tamper_yields_other_key (P : Prims) (f : KeyFile) (pw pt :
   subst hb
   rcases hcase with ⟨_, hv3ok, hver, hcip, hx⟩ | ⟨hv1, _, _, _⟩
   · refine ⟨xorStream (P.ks (encKey buf) iv') 0 ct, ?_, ?_⟩
+    · rw [hx]
+      have hl : pt.length = ct.length := by rw [hx, xorStream_length]
+      exact xorStream_ne _ _ 0 ct i (by omega) (by simpa using hks)
     · have hkdfEq : getKDFKey P { f.crypto with iv := hexEncode iv' } pw = .ok (buf, len) := hk
       have hcm' := checkMac_of (P := P) (c := { f.crypto with iv := hexEncode iv' }) (auth := pw) hmac
         (hexDecode_hexEncode iv') hct hkdfEq hcap0
       rw [if_neg (by simpa using hH)] at hcm'
-      exact decryptBytes_v3_of (f := { f with crypto := { f.crypto with iv := hexEncode iv' } }) hj hv3 hv3ok hver hcip hcm' hlen
-    · rw [hx]
-      have hl : pt.length = ct.length := by rw [hx, xorStream_length]
-      exact xorStream_ne _ _ 0 ct i (by omega) (by simpa using hks)
+      have hb := decryptBytes_v3_of (f := { f with crypto := { f.crypto with iv := hexEncode iv' } }) hj hv3 hv3ok hver hcip hcm' hlen
+      exact decryptKey_of_bytes hb (Or.inl hna)
   · rw [hv3] at hv1; cases hv1
 
 /-- Toy primitives satisfying every cryptographic hypothesis used above: `H` injective (identity), address derivation
@@ -341,20 +422,26 @@ def wFile : KeyFile :=
   | _ => ⟨false, none, false, false, 0, [], [], ⟨[], [], [], [], [], []⟩⟩
 /-- the stored file with ONE character of the IV field changed ('0' -> '1' in the first position). -/
 def wFileIv : KeyFile := { wFile with crypto := { wFile.crypto with iv := ascii "10000000000000000000000000000000" } }
+/-- the same two files with the "address" field removed (as some other wallets write them). -/
+def wFileNoAddr : KeyFile := { wFile with address := [] }
+def wFileNoAddrIv : KeyFile := { wFileIv with address := [] }
 
-/-- Concrete witness that the clause "never yields a different key" FAILS for bare `DecryptKey` when the IV field is
-    altered: the file is what EncryptKey wrote for scalar 5; it opens to 5; with one IV character changed it opens —
-    without error — to a different scalar with a different address.  `KeyStore.GetKey` rejects the same file. -/
-theorem decryptKey_iv_tamper_witness :
+/-- Concrete picture of both sides on one stored key (scalar 5): the file EncryptKey wrote opens to 5; with one IV character
+    changed, bare DecryptKey and Import now answer "key file corrupted" (before a73be14: another key, silently) and GetKey
+    rejects as before; only with the address field stripped does bare DecryptKey still hand out another key. -/
+theorem decryptKey_no_address_iv_tamper_residual_witness :
     encryptKey toyP 5 (toyP.addrOf 5) [] (ascii "pw") [1, 2, 3] wIv 2 1 = .ok wFile ∧
     decryptKey toyP wFile (ascii "pw") = .ok ⟨5, toyP.addrOf 5⟩ ∧
     ((wFile.crypto.iv.zip wFileIv.crypto.iv).filter (fun p => p.1 != p.2)).length = 1 ∧
-    (∃ k', decryptKey toyP wFileIv (ascii "pw") = .ok k' ∧ k'.d ≠ 5 ∧ k'.addr ≠ toyP.addrOf 5) ∧
-    getKey toyP (toyP.addrOf 5) wFileIv (ascii "pw") = .err .mismatch := by
-  refine ⟨by decide, by decide, by decide, ⟨⟨2 ^ 252 + 5, toyP.addrOf (2 ^ 252 + 5)⟩, by decide, by decide, by decide⟩, by decide⟩
+    decryptKey toyP wFileIv (ascii "pw") = .err .corrupted ∧
+    importAccount toyP wFileIv (ascii "pw") = .err .corrupted ∧
+    decryptKey toyP wFileNoAddr (ascii "pw") = .ok ⟨5, toyP.addrOf 5⟩ ∧
+    decryptKey toyP wFileNoAddrIv (ascii "pw") = .ok ⟨2 ^ 252 + 5, toyP.addrOf (2 ^ 252 + 5)⟩ ∧
+    getKey toyP (toyP.addrOf 5) wFileNoAddrIv (ascii "pw") = .err .mismatch := by
+  refine ⟨by decide, by decide, by decide, by decide, by decide, by decide, by decide, by decide⟩
 
-/-- Positive statement at KeyStore level for the IV: if the IV-tampered file opens at all to a scalar whose address
-    differs from the account's, `GetKey` answers with the mismatch error. -/
+/-- Positive statement at KeyStore level for whatever bare DecryptKey returns: a key whose address differs from the account's
+    is answered with the mismatch error. -/
 theorem getKey_rejects_iv_tamper (P : Prims) (a : Bytes) (f' : KeyFile) (pw : Bytes) (k' : Key)
     (hdec : decryptKey P f' pw = .ok k') (haddr : k'.addr ≠ a) :
     getKey P a f' pw = .err .mismatch := by
@@ -362,17 +449,60 @@ theorem getKey_rejects_iv_tamper (P : Prims) (a : Bytes) (f' : KeyFile) (pw : By
   rw [hdec]
   simp [haddr]
 
-/-! ## 6. "fails with an error": where DecryptKey can panic instead -/
+/-! ## 6. "fails with an error": DecryptKey is total -/
 
-/-- Partial totality: DecryptKey never panics EXCEPT in the listed situations — a `kdfparams` entry missing or of the
-    wrong JSON type (failed type assertion), a panic inside the KDF call itself, a derived-key buffer of capacity < 32,
-    and (only after the MAC matched) an IV that is not 16 bytes or a v1 ciphertext that is not a multiple of 16 bytes.
-    Partial because the Go runtime is not modelled: only the panics of the modelled expressions are covered. -/
-theorem decrypt_total_partial (P : Prims) (f : KeyFile) (pw : Bytes) (h : decryptKey P f pw = .panic) :
-    getKDFKey P f.crypto pw = .panic ∨
-    (∃ buf len, getKDFKey P f.crypto pw = .ok (buf, len) ∧ buf.length < 32) ∨
-    (∃ iv, hexDecode f.crypto.iv = some iv ∧ iv.length ≠ 16) ∨
-    (isV1 f = true ∧ ∃ ct, hexDecode f.crypto.ciphertext = some ct ∧ ct.length % 16 ≠ 0) := by
+/-- a KDF request with the parameters getKDFKey lets through. -/
+def KdfReq.positive : KdfReq → Prop
+  | .scrypt _ _ _ r p dklen => 0 < r ∧ 0 < p ∧ 0 < dklen
+  | .pbkdf2 _ _ _ dklen => 0 < dklen
+
+/-- what scrypt / PBKDF2 do on positive parameters: no panic, and the returned slice sits in whole 32-byte blocks. -/
+def KdfSane (P : Prims) : Prop :=
+  ∀ req, KdfReq.positive req → P.kdf req ≠ .panic ∧ ∀ buf len, P.kdf req = .ok buf len → 32 ≤ buf.length
+
+/-- getKDFKey either fails with an error or is the KDF called on POSITIVE r, p, dklen (e55659c). -/
+theorem getKDFKey_error_or_positive_call (P : Prims) (c : Crypto) (pw : Bytes) :
+    (∃ e, getKDFKey P c pw = .err e) ∨ ∃ req, KdfReq.positive req ∧ getKDFKey P c pw = kdfRes (P.kdf req) := by
+  unfold getKDFKey
+  split
+  · exact Or.inl ⟨_, rfl⟩
+  split
+  · exact Or.inl ⟨_, rfl⟩
+  split
+  · exact Or.inl ⟨_, rfl⟩
+  rename_i dkLen _
+  split
+  · exact Or.inl ⟨_, rfl⟩
+  rename_i hdk
+  split
+  · split
+    · exact Or.inl ⟨_, rfl⟩
+    split
+    · exact Or.inl ⟨_, rfl⟩
+    split
+    · exact Or.inl ⟨_, rfl⟩
+    split
+    · exact Or.inl ⟨_, rfl⟩
+    rename_i hrp
+    refine Or.inr ⟨_, ?_, rfl⟩
+    simp only [KdfReq.positive]
+    omega
+  split
+  · split
+    · exact Or.inl ⟨_, rfl⟩
+    split
+    · exact Or.inl ⟨_, rfl⟩
+    split
+    · exact Or.inl ⟨_, rfl⟩
+    refine Or.inr ⟨_, ?_, rfl⟩
+    simp only [KdfReq.positive]
+    omega
+  · exact Or.inl ⟨_, rfl⟩
+
+/-- Unconditionally: the only ways left for DecryptKey to panic are a panic of the KDF call itself or a derived-key buffer
+    of capacity below 32 — never a kdfparams entry, never the IV, never the ciphertext length. -/
+theorem decrypt_panic_only_from_kdf (P : Prims) (f : KeyFile) (pw : Bytes) (h : decryptKey P f pw = .panic) :
+    getKDFKey P f.crypto pw = .panic ∨ ∃ buf len, getKDFKey P f.crypto pw = .ok (buf, len) ∧ buf.length < 32 := by
   have hcm : ∀ (c : Crypto), checkMac P c pw = .panic →
       getKDFKey P c pw = .panic ∨ (∃ buf len, getKDFKey P c pw = .ok (buf, len) ∧ buf.length < 32) := by
     intro c hc
@@ -398,23 +528,15 @@ theorem decrypt_total_partial (P : Prims) (f : KeyFile) (pw : Bytes) (h : decryp
     split at hb
     · cases hb
     split at hb
-    · rename_i hv1
-      split at hb
+    · split at hb
       · cases hb
       unfold decryptKeyV1 at hb
       split at hb
       · cases hb
-      · rename_i hp
-        rcases hcm _ hp with h1 | h2
-        · exact Or.inl h1
-        · exact Or.inr (Or.inl h2)
-      · rename_i buf iv ct hc
-        obtain ⟨_, _, _, hiv, hct, _, _, _⟩ := checkMac_ok hc
-        split at hb
-        · rename_i hl; exact Or.inr (Or.inr (Or.inl ⟨iv, hiv, hl⟩))
-        · split at hb
-          · rename_i hl; exact Or.inr (Or.inr (Or.inr ⟨hv1, ct, hct, hl⟩))
-          · split at hb <;> cases hb
+      · rename_i hp; exact hcm _ hp
+      · split at hb
+        · cases hb
+        · split at hb <;> cases hb
     · split at hb
       · cases hb
       unfold decryptKeyV3 at hb
@@ -424,79 +546,78 @@ theorem decrypt_total_partial (P : Prims) (f : KeyFile) (pw : Bytes) (h : decryp
       · cases hb
       split at hb
       · cases hb
-      · rename_i hp
-        rcases hcm _ hp with h1 | h2
-        · exact Or.inl h1
-        · exact Or.inr (Or.inl h2)
-      · rename_i buf iv ct hc
-        obtain ⟨_, _, _, hiv, _, _, _, _⟩ := checkMac_ok hc
-        split at hb
-        · rename_i hl; exact Or.inr (Or.inr (Or.inl ⟨iv, hiv, hl⟩))
-        · cases hb
-  · cases h
+      · rename_i hp; exact hcm _ hp
+      · split at hb <;> cases hb
+  · simp only at h
+    split at h <;> cases h
 
-/-- and getKDFKey panics only on a missing / wrongly typed `kdfparams` entry or when the KDF call itself panics. -/
-theorem getKDFKey_panic_only_if (P : Prims) (c : Crypto) (pw : Bytes) (h : getKDFKey P c pw = .panic) :
-    asString (lookup c.kdfparams (ascii "salt")) = none ∨ ensureInt (lookup c.kdfparams (ascii "dklen")) = none ∨
-    (c.kdf = ascii "scrypt" ∧ (ensureInt (lookup c.kdfparams (ascii "n")) = none ∨
-       ensureInt (lookup c.kdfparams (ascii "r")) = none ∨ ensureInt (lookup c.kdfparams (ascii "p")) = none)) ∨
-    (c.kdf = ascii "pbkdf2" ∧ (ensureInt (lookup c.kdfparams (ascii "c")) = none ∨
-       asString (lookup c.kdfparams (ascii "prf")) = none)) ∨
-    ∃ req, P.kdf req = .panic := by
-  have hres : ∀ r, kdfRes r = .panic → r = .panic := by
-    intro r hr; cases r <;> simp [kdfRes] at hr ⊢
-  unfold getKDFKey at h
-  split at h
-  · rename_i hs; exact Or.inl hs
-  split at h
-  · cases h
-  split at h
-  · rename_i hd; exact Or.inr (Or.inl hd)
-  split at h
-  · rename_i hkdf
+/-- TOTALITY: with a KDF that behaves like scrypt / PBKDF2 on positive parameters, `DecryptKey`, `GetKey` and `Import` never
+    panic on ANY key file and passphrase — every failure is an error value.  (Before e55659c: `"p":0`, `"r":0`, `"dklen":-2`,
+    a missing kdfparams key or a missing IV crashed the caller.)  Scope: the modelled expressions; allocation failure for
+    absurd n / dklen is outside. -/
+theorem decrypt_total (P : Prims) (hP : KdfSane P) (f : KeyFile) (pw : Bytes) :
+    decryptKey P f pw ≠ .panic ∧ (∀ a, getKey P a f pw ≠ .panic) ∧ importAccount P f pw ≠ .panic := by
+  have h1 : decryptKey P f pw ≠ .panic := by
+    intro h
+    rcases getKDFKey_error_or_positive_call P f.crypto pw with ⟨e, he⟩ | ⟨req, hpos, hreq⟩
+    · rcases decrypt_panic_only_from_kdf P f pw h with hp | ⟨buf, len, hk, _⟩
+      · rw [he] at hp; cases hp
+      · rw [he] at hk; cases hk
+    · obtain ⟨hnp, hcap⟩ := hP req hpos
+      rcases decrypt_panic_only_from_kdf P f pw h with hp | ⟨buf, len, hk, hl⟩
+      · rw [hreq] at hp
+        cases hq : P.kdf req with
+        | ok b l => rw [hq] at hp; cases hp
+        | err => rw [hq] at hp; cases hp
+        | panic => exact hnp hq
+      · rw [hreq] at hk
+        cases hq : P.kdf req with
+        | ok b l =>
+          rw [hq] at hk
+          simp only [kdfRes] at hk
+          injection hk with hk
+          injection hk with hb _
+          subst hb
+          have := hcap b l hq
+          omega
+        | err => rw [hq] at hk; cases hk
+        | panic => exact hnp hq
+  refine ⟨h1, ?_, ?_⟩
+  · intro a h
+    unfold getKey at h
     split at h
-    · rename_i hn; exact Or.inr (Or.inr (Or.inl ⟨hkdf, Or.inl hn⟩))
-    split at h
-    · rename_i hr; exact Or.inr (Or.inr (Or.inl ⟨hkdf, Or.inr (Or.inl hr)⟩))
-    split at h
-    · rename_i hp; exact Or.inr (Or.inr (Or.inl ⟨hkdf, Or.inr (Or.inr hp)⟩))
-    exact Or.inr (Or.inr (Or.inr (Or.inr ⟨_, hres _ h⟩)))
-  split at h
-  · rename_i hkdf
-    split at h
-    · rename_i hc; exact Or.inr (Or.inr (Or.inr (Or.inl ⟨hkdf, Or.inl hc⟩)))
-    split at h
-    · rename_i hp; exact Or.inr (Or.inr (Or.inr (Or.inl ⟨hkdf, Or.inr hp⟩)))
+    · split at h <;> cases h
+    · rename_i hno
+      exact h1 h
+  · intro h
+    unfold importAccount at h
     split at h
     · cases h
-    exact Or.inr (Or.inr (Or.inr (Or.inr ⟨_, hres _ h⟩)))
-  · cases h
+    · cases h
+    · rename_i hp; exact h1 hp
 
-/-- a KDF that panics on degenerate parameters, as x/crypto scrypt does for r = 0 or p = 0 (integer division by zero)
-    and pbkdf2 for a negative dklen (slice bound). -/
-def toyPanicP : Prims :=
-  { toyP with kdf := fun req => match req with
-      | .scrypt _ _ _ r p dklen => if r = 0 ∨ p = 0 ∨ dklen < 0 then .panic else .ok ((List.range 32).map UInt8.ofNat) 32
-      | .pbkdf2 _ _ _ dklen => if dklen < 0 then .panic else .ok ((List.range 32).map UInt8.ofNat) 32 }
-
-def wFileP0 : KeyFile :=
-  { wFile with crypto := { wFile.crypto with kdfparams :=
-      [(ascii "dklen", .num 32), (ascii "n", .num 2), (ascii "p", .num 0), (ascii "r", .num 8), (ascii "salt", .str (ascii "010203"))] } }
-
-/-- Witness for the clause "fails WITH AN ERROR": nothing in DecryptKey catches a panic of the KDF call, so a key file
-    whose scrypt `p` was altered from 1 to 0 makes DecryptKey (and GetKey) panic rather than return an error. -/
-theorem decryptKey_kdf_panic_witness :
-    decryptKey toyPanicP wFile (ascii "pw") = .ok ⟨5, toyP.addrOf 5⟩ ∧
-    decryptKey toyPanicP wFileP0 (ascii "pw") = .panic ∧
-    getKey toyPanicP (toyP.addrOf 5) wFileP0 (ascii "pw") = .panic := by
-  refine ⟨by decide, by decide, by decide⟩
+/-- Degenerate scrypt parameters are errors, whatever the KDF would do with them: r ≤ 0 or p ≤ 0 (well-typed otherwise)
+    never reaches the KDF. -/
+theorem degenerate_kdfparams_are_errors (P : Prims) (c : Crypto) (pw salt : Bytes) (dklen n r p : Int)
+    (hs : asString (lookup c.kdfparams (ascii "salt")) = some (hexEncode salt))
+    (hd : ensureInt (lookup c.kdfparams (ascii "dklen")) = some dklen)
+    (hkdf : c.kdf = ascii "scrypt")
+    (hn : ensureInt (lookup c.kdfparams (ascii "n")) = some n)
+    (hr : ensureInt (lookup c.kdfparams (ascii "r")) = some r)
+    (hp : ensureInt (lookup c.kdfparams (ascii "p")) = some p)
+    (hbad : dklen ≤ 0 ∨ r ≤ 0 ∨ p ≤ 0) : getKDFKey P c pw = .err .kdfParams := by
+  unfold getKDFKey
+  simp only [hs, hexDecode_hexEncode, hd, hkdf, hn, hr, hp, if_true]
+  by_cases h0 : dklen ≤ 0
+  · rw [if_pos h0]
+  · rw [if_neg h0, if_pos (by omega)]
 
 /-! ## Non-vacuity: the hypotheses of the theorems above are satisfiable on non-trivial instances -/
 
 /-- roundtrip: a scalar with 31 leading zero bytes under the toy primitives. -/
 example : ∃ f, encryptKey toyP 5 (toyP.addrOf 5) [] (ascii "pw") [1, 2, 3] wIv 2 1 = .ok f ∧
     decryptKey toyP f (ascii "pw") = .ok ⟨5, toyP.addrOf 5⟩ := by
-  obtain ⟨f, h1, _, h3, _⟩ := roundtrip toyP 5 (by decide) (toyP.addrOf 5) [] (ascii "pw") [1, 2, 3] wIv 2 1
+  obtain ⟨f, h1, _, h3, _⟩ := roundtrip toyP 5 (by decide) (toyP.addrOf 5) [] (ascii "pw") [1, 2, 3] wIv 2 1 (by decide) rfl
     ((List.range 32).map UInt8.ofNat) 32 rfl (by decide) (by decide)
   exact ⟨f, h1, h3⟩
 
@@ -548,20 +669,48 @@ example : ∀ k', decryptKey toyP { wFile with crypto := { wFile.crypto with
 example : ∀ k', decryptKey toyP { wFile with crypto := { wFile.crypto with mac := ascii "00" } } (ascii "pw") ≠ .ok k' :=
   tamper_mac_rejected toyP wFile (ascii "pw") ⟨5, toyP.addrOf 5⟩ _ (by decide) (by decide)
 
-/-- tamper_never_yields_other_key: hypotheses satisfiable (the same file twice), and getKey_rejects_iv_tamper applies to the
-    IV-tampered witness. -/
+/-- tamper_never_yields_other_key / getKey_rejects_iv_tamper: hypotheses satisfiable. -/
 example : getKey toyP (toyP.addrOf 5) wFile (ascii "pw") = .ok ⟨5, toyP.addrOf 5⟩ := by decide
-example : getKey toyP (toyP.addrOf 5) wFileIv (ascii "pw") = .err .mismatch :=
-  getKey_rejects_iv_tamper toyP _ wFileIv (ascii "pw") ⟨2 ^ 252 + 5, toyP.addrOf (2 ^ 252 + 5)⟩ (by decide) (by decide)
+example : getKey toyP (toyP.addrOf 5) wFileNoAddrIv (ascii "pw") = .err .mismatch :=
+  getKey_rejects_iv_tamper toyP _ wFileNoAddrIv (ascii "pw") ⟨2 ^ 252 + 5, toyP.addrOf (2 ^ 252 + 5)⟩ (by decide) (by decide)
 
-/-- decryptKey_iv_tamper_yields_other_key: hypotheses satisfiable on the witness file. -/
-example : ∃ pt', decryptBytes toyP { wFile with crypto := { wFile.crypto with iv := hexEncode (1 :: List.replicate 15 0) } }
-    (ascii "pw") = .ok pt' ∧ pt' ≠ paddedBigBytes 5 32 :=
-  decryptKey_iv_tamper_yields_other_key toyP wFile (ascii "pw") (paddedBigBytes 5 32) (by decide) (by decide) wIv
+/-- decryptKey_tamper_never_yields_other_key / import_never_yields_other_account: the stored file names its address, and a
+    tampered variant that still opens exists (dklen 32 -> 12), so both hypotheses are jointly satisfiable. -/
+example : wFile.address ≠ [] ∧ wFileDk.address = wFile.address ∧
+    importAccount toyP wFile (ascii "pw") = .ok (toyP.addrOf 5) ∧ importAccount toyP wFileDk (ascii "pw") = .ok (toyP.addrOf 5) := by
+  refine ⟨by decide, rfl, by decide, by decide⟩
+
+/-- decryptKey_rejects_key_of_other_address: hypotheses hold for the IV-tampered file. -/
+example : decryptKey toyP wFileIv (ascii "pw") = .err .corrupted :=
+  (decryptKey_rejects_key_of_other_address toyP wFileIv (ascii "pw") (paddedBigBytes (2 ^ 252 + 5) 32) (by decide) (by decide)
+    (by decide)).1
+
+/-- decryptKey_no_address_iv_tamper_residual: hypotheses satisfiable on the address-less witness file. -/
+example : ∃ pt', pt' ≠ paddedBigBytes 5 32 ∧
+    decryptKey toyP { wFileNoAddr with crypto := { wFileNoAddr.crypto with iv := hexEncode (1 :: List.replicate 15 0) } } (ascii "pw") =
+      .ok ⟨scalarOfBytes pt', toyP.addrOf (scalarOfBytes pt')⟩ :=
+  decryptKey_no_address_iv_tamper_residual toyP wFileNoAddr (ascii "pw") (paddedBigBytes 5 32) (by decide) (by decide) rfl wIv
     (1 :: List.replicate 15 0) (by decide) (by decide) ((List.range 32).map UInt8.ofNat) 32 (by decide) 0 (by decide) (by decide)
 
-/-- decrypt_total_partial: a panicking instance exists (see decryptKey_kdf_panic_witness) and it falls under the first
-    disjunct. -/
-example : getKDFKey toyPanicP wFileP0.crypto (ascii "pw") = .panic := by decide
+/-- decrypt_total: the toy KDF is sane; degenerate_kdfparams_are_errors: a file with p = 0 is an error even under a KDF that
+    would panic on it. -/
+example : KdfSane toyP := fun _ _ => ⟨by simp [toyP], fun buf len h => by
+  simp only [toyP] at h
+  injection h with h1 _
+  subst h1
+  decide⟩
+
+def toyPanicP : Prims :=
+  { toyP with kdf := fun req => match req with
+      | .scrypt _ _ _ r p dklen => if r = 0 ∨ p = 0 ∨ dklen < 0 then .panic else .ok ((List.range 32).map UInt8.ofNat) 32
+      | .pbkdf2 _ _ _ dklen => if dklen < 0 then .panic else .ok ((List.range 32).map UInt8.ofNat) 32 }
+
+def wFileP0 : KeyFile :=
+  { wFile with crypto := { wFile.crypto with kdfparams :=
+      [(ascii "dklen", .num 32), (ascii "n", .num 2), (ascii "p", .num 0), (ascii "r", .num 8), (ascii "salt", .str (ascii "010203"))] } }
+
+example : decryptKey toyPanicP wFileP0 (ascii "pw") = .err .kdfParams ∧
+    getKey toyPanicP (toyP.addrOf 5) wFileP0 (ascii "pw") = .err .kdfParams := by
+  refine ⟨by decide, by decide⟩
 
 end Aqv.Props.C20
